@@ -15,6 +15,8 @@ types, assume_specifications, spec functions, lemmas):
   //@extern <file> <impl anchor|-> <name> [ret=<ident>]   like //@fn, but ONLY the signature is taken from the repo: the body is
                                       replaced by `unimplemented!()` under #[verifier::external_body] and the //@| clauses
                                       are its ASSUMED contract (discharged by another unit, named in the template)
+  //@fn? / //@extern?                like //@fn / //@extern, but an absent anchor is skipped (helper functions that a refactoring
+                                      may inline; the property-carrying caller is still verified); recorded in the sidecar
   //@ghost | <text>                  (ghost/proof line placed right after the opening brace of the body; erased code)
 
 Parameter patterns `In(pat): In<T>` (Bevy system input) are not accepted by the verus! macro; they are desugared the
@@ -222,8 +224,9 @@ def expand(template_path, repo='/repo'):
             tpl[i + 1:i + 1] = open(inc).read().splitlines()
         elif s == '//@endimpl':
             out.append('}')
-        elif s.startswith('//@fn ') or s.startswith('//@extern '):
-            is_extern = s.startswith('//@extern ')
+        elif s.startswith('//@fn ') or s.startswith('//@extern ') or s.startswith('//@fn? ') or s.startswith('//@extern? '):
+            is_extern = s.startswith('//@extern')
+            optional = s.split()[0].endswith('?')
             parts = s.split()
             f = parts[1]
             ret = None
@@ -252,17 +255,32 @@ def expand(template_path, repo='/repo'):
             loops = {k: '\n'.join(v) for k, v in loops.items()}
             text = src(f)
             if anchor == '-':
-                fn = rc.cut_fn(text, name, 0, None, 0)
+                try:
+                    fn = rc.cut_fn(text, name, 0, None, 0)
+                except CutError:
+                    if not optional:
+                        raise
+                    fn = None
             else:
                 fn = None
-                for header, ob, close in rc.find_impls(text, anchor):
+                try:
+                    impls = rc.find_impls(text, anchor)
+                except CutError:
+                    if not optional:
+                        raise
+                    impls = []
+                for header, ob, close in impls:
                     try:
                         fn = rc.cut_fn(text, name, ob + 1, close, 0)
                         break
                     except CutError:
                         continue
-                if fn is None:
+                if fn is None and not optional:
                     raise CutError('fn %s not found in %s (%s)' % (name, anchor, f))
+            if fn is None:
+                side.setdefault('optional_absent', []).append(name)
+                i += 1
+                continue
             sig = fn['sig'].lstrip()
             if ' for ' in anchor:
                 pass  # trait impl items carry no visibility
